@@ -102,6 +102,10 @@ def gen_cp(r, invalid=False):
         dict(strategy="max_tnr", min_rate=float("inf")), dict(strategy="max_tpr", min_rate=[0.5]),
         dict(strategy="f_beta", beta=[1.0]),
     ])
+  if r.random() < 0.12:
+    # partial settings: whatever is left out takes calibrate_threshold's default
+    # (strategy 'accuracy', beta 1.0) - and nothing an earlier call used
+    return r.choice([dict(), dict(strategy="f_beta"), dict(strategy="accuracy"), dict(beta=2.0)])
   s = r.choice(["accuracy", "f_beta", "max_tpr", "max_tnr"])
   cp = dict(strategy=s)
   if s == "f_beta":
